@@ -666,6 +666,26 @@ def run_unmock_shapes(pid, tier, t0):
     return finish(pid, tier, "exploration", cov, ["all methods of a generated trait share one signature so that a positional shift in the list compiles and becomes visible at run time"], t0, divs)
 
 
+def run_delegate_shapes(pid, tier, t0):
+    import gen, gen_c15
+    inst = {"module": "MC_Delegate", "spec": "Spec", "constants": {"EmitOn": True}, "invariants": ["Emit"]}
+    r, cases = gen.tlc_cases(inst, "delegate_" + pid.lower())
+    main_rs, exp = gen_c15.render(cases)
+    gen.write_crate("gen_c15", main_rs)
+    obs, info = gen.build_and_run("gen_c15", timeout=3000)
+    if obs is None:
+        errs, _ = gen.check_errors("gen_c15")
+        log(str(info)[-2000:])
+        raise ToolError("generated delegation program does not build/run (%d compile errors; first: %s)" % (len(errs), errs[:2]))
+    d = gen_c15.compare(exp, obs)
+    divs = [{"what": x["what"], "step": 0, "expected": x["expected"], "observed": x["observed"], "beh": {"kind": "generated-case", "case": x["exp"]}, "in_scope": True} for x in d]
+    n = len(exp)
+    cov = {"evaluations": n, "distinct_nontrivial": n, "programs": n, "states": r["distinct"], "transitions": r["generated"], "traces_validated_against_impl": n, "exhaustive": True,
+           "samples": [{"default_method": e["sig"], "setup": e["setup"], "expected_result": e["ret"]} for e in list(exp.values())[100:103]],
+           "rule": "TLC enumerates receiver kind (&self, &mut self, by value, Rc, Arc, Pin) x number of required-method calls in the default body (0-3) x implicit vs applies_default_impl() x preceding direct calls x ordered vs counted unordered required patterns x sole vs shared Rc/Arc owner, with the expected result, body arguments and a silent final verification (tla/Shapes.tla DelegateExpected); every case is generated, built and run"}
+    return finish(pid, tier, "exploration", cov, ["the default body is the generated trait's own; the silent final verification is the witness that required calls were counted on the same mock state"], t0, divs)
+
+
 COMMON_ASSUME = [
     "argument domain is a small finite set; matchers are total and side-effect free",
     "expectations are produced by TLC from tla/Mock.tla; the harness only compares observables (return ids, panic classes, verification lines, drop counters)",
@@ -726,6 +746,9 @@ def run_property(pid, tier, t0):
         return run_c14(pid, tier, t0)
     if pid == "C06":
         return run_matching(pid, tier, t0, "C06")
+    if pid == "C15":
+        return composite(pid, tier, t0, [("default-body frames on the universe (Mock.tla, replay)", mock),
+                                         ("receiver kinds (Shapes.tla DelegateExpected, generated traits)", lambda: run_delegate_shapes(pid, tier, t0))])
     if pid == "C16":
         return composite(pid, tier, t0, [("re-entrant real functions on the universe (Mock.tla frames, replay)", mock),
                                          ("unmock_with forms / positions / receivers (Shapes.tla UnmockExpected, generated traits)", lambda: run_unmock_shapes(pid, tier, t0))])
